@@ -14,7 +14,7 @@ use serde_json::{json, Value};
 pub const META: Meta = Meta {
     id: "C07",
     level: "fault_enumeration",
-    rule: "Fault enumeration: range lengths 1..=8 (thorough 10) x every composition of the range into <= 4 (thorough 5) chunks x fault kind {early end, error, 1-3 extra bytes in chunk i, one extra chunk, an error after the last byte, none} x every chunk index x filler {none, Pending before the fault, empty chunk before the fault, Pending / empty 'tail' steps between the last byte and the end or after-the-end fault} x entity stream variants {contiguous chunks, two-segment chunks, size_hint that counts data chunks, errors that repeat on every further poll} x response shape {200, single 206, multipart with 2-3 parts and the fault in each part} x {small entity, entity of 2^64-1 bytes with the faulty range running to its very end in first- and suffix form}; plus proptest over longer ranges, up to 8 parts and faults in several parts. Oracle: against the fault-free twin of the same case: delivered bytes are a prefix of the twin's body and never exceed the announced length; short/failing stream => first terminal event is an error (the injected one for entity errors), never a clean end; over-long stream => nothing beyond the announced length and an error when polled past it; fault-free with fillers => clean end with exact bytes. Non-trivial = the injected fault was actually reached by the drain; distinct by fingerprint of the case.",
+    rule: "Fault enumeration: range lengths 1..=8 (thorough 10) x every composition of the range into <= 4 (thorough 5) chunks x fault kind {early end, error, 1-3 extra bytes in chunk i, one extra chunk, an error after the last byte, none} x every chunk index x filler {none, Pending before the fault, empty chunk before the fault, Pending / empty 'tail' steps between the last byte and the end or after-the-end fault} x entity stream variants {contiguous chunks, two-segment chunks, size_hint that counts data chunks, errors that repeat on every further poll} x response shape {200, single 206, multipart with 2-3 parts and the fault in each part, ranges apart and touching} x {small entity, entity of 2^64-1 bytes with the faulty range running to its very end in first- and suffix form}; plus proptest over longer ranges, up to 8 parts and faults in several parts. Oracle: against the fault-free twin of the same case: delivered bytes are a prefix of the twin's body and never exceed the announced length; short/failing stream => first terminal event is an error (the injected one for entity errors), never a clean end; over-long stream => nothing beyond the announced length and an error when polled past it; fault-free with fillers => clean end with exact bytes. Non-trivial = the injected fault was actually reached by the drain; distinct by fingerprint of the case.",
     assumptions: &[
         "harness entity streams are fused after their end or error",
         "the consumer polls until a terminal event (a consumer that stops at Content-Length never sees an extra chunk)",
@@ -58,6 +58,9 @@ pub struct FCase {
     /// other tag, 3 a matching If-Range (with a Range), 4 If-Unmodified-Since later
     #[serde(default)]
     pub noop: u8,
+    /// multipart: each range starts at the byte after the previous one's end (no gap between parts)
+    #[serde(default)]
+    pub adjacent: bool,
 }
 
 impl FCase {
@@ -85,7 +88,7 @@ impl FCase {
         let (l, req) = match self.shape {
             Shape::Single if self.huge > 0 => (u64::MAX, ReqSpec::get().with("range", format!("bytes={}", to_end(u64::MAX)))),
             Shape::Multi(n) if self.huge > 0 => {
-                let stride = len + 90;
+                let stride = if self.adjacent { len } else { len + 90 };
                 let mut v: Vec<String> = (0..n as u64 - 1).map(|j| format!("{}-{}", 7 + j * stride, 7 + j * stride + len - 1)).collect();
                 v.push(to_end(u64::MAX));
                 (u64::MAX, ReqSpec::get().with("range", format!("bytes={}", v.join(","))))
@@ -93,8 +96,8 @@ impl FCase {
             Shape::Full => (len, ReqSpec::get()),
             Shape::Single => (len + 5, ReqSpec::get().with("range", format!("bytes=3-{}", len + 2))),
             Shape::Multi(n) => {
-                let stride = len + 90;
-                let l = (stride * n as u64 + 1) * 2 + 100;
+                let stride = if self.adjacent { len } else { len + 90 };
+                let l = ((len + 90) * n as u64 + 1) * 2 + 100;
                 let v: Vec<String> = (0..n as u64).map(|j| format!("{}-{}", 7 + j * stride, 7 + j * stride + len - 1)).collect();
                 (l, ReqSpec::get().with("range", format!("bytes={}", v.join(","))))
             }
@@ -396,6 +399,23 @@ pub fn enumerate(len: u32, max_chunks: usize, extra_polls: &[usize], mut f: impl
                                     if huge > 0 && matches!(shape, Shape::Multi(n) if call + 1 != n as u32) {
                                         continue; // only the last part runs to the end
                                     }
+                                    if huge == 0 && matches!(shape, Shape::Multi(_)) && segments == 1 && !counting_hint && !unfused_errors {
+                                        // the same with ranges that touch (0-9,10-19,...)
+                                        f(FCase {
+                                            shape,
+                                            chunks: chunks.clone(),
+                                            filler,
+                                            faults: fault.into_iter().collect(),
+                                            tail: tail.clone(),
+                                            extra_polls: extra,
+                                            segments,
+                                            counting_hint,
+                                            unfused_errors,
+                                            huge,
+                                            noop: 0,
+                                            adjacent: true,
+                                        });
+                                    }
                                     f(FCase {
                                         shape,
                                         chunks: chunks.clone(),
@@ -408,6 +428,7 @@ pub fn enumerate(len: u32, max_chunks: usize, extra_polls: &[usize], mut f: impl
                                         unfused_errors,
                                         huge,
                                         noop: 0,
+                                        adjacent: false,
                                     });
                                 }
                             }
@@ -464,6 +485,7 @@ pub fn random_strategy() -> BoxedStrategy<FCase> {
                 extra_polls,
                 huge: if shape == Shape::Full { 0 } else { huge },
                 noop,
+                adjacent: extra_polls % 2 == 1,
             }
         })
         .boxed()
